@@ -1280,6 +1280,34 @@ func (c *puFn) translate() (string, error) {
 			fmt.Fprintf(&b, "  %s%s\n", strconv.Quote(txt), sep)
 		}
 		b.WriteString("]\n")
+		// the named constants the pinned statements mention, with the values go/types gives them
+		var consts []string
+		seenC := map[string]bool{}
+		for _, st := range c.tail {
+			ast.Inspect(st, func(n ast.Node) bool {
+				e, ok := n.(ast.Expr)
+				if !ok {
+					return true
+				}
+				switch e.(type) {
+				case *ast.Ident, *ast.SelectorExpr:
+				default:
+					return true
+				}
+				tv, ok := c.pkg.info.Types[e]
+				if !ok || tv.Value == nil || !c.kindOf(tv.Type).integer() {
+					return true
+				}
+				name := c.text(e)
+				if !seenC[name] {
+					seenC[name] = true
+					consts = append(consts, fmt.Sprintf("(%s, %s)", strconv.Quote(name), tv.Value.ExactString()))
+				}
+				return false
+			})
+		}
+		fmt.Fprintf(&b, "\n/-- the named integer constants in those statements, with their values -/\ndef %s.tailConsts : List (String × Int) := [%s]\n",
+			c.lean, strings.Join(consts, ", "))
 		fmt.Fprintf(&b, "\n/-- the signature of %s, as text -/\ndef %s.signature : String := %s\n", c.t.fn, c.lean,
 			strconv.Quote(strings.Join(strings.Fields(c.text(c.decl.Type)), " ")))
 	}
